@@ -440,6 +440,18 @@ def judge_sensor(rec, mjm, i, got, ref, noise, coarse, gated, struct_ok, constra
     rec.count("near_discontinuity:" + name)
     rec.inconcl(f"{name}: reference jumps under a 3e-6 perturbation")
     return "incon"
+  if t in DISTFAM and int(mjm.sensor_objtype[i]) == int(mujoco.mjtObj.mjOBJ_GEOM) and int(mjm.sensor_reftype[i]) == int(mujoco.mjtObj.mjOBJ_GEOM):
+    # MuJoCo's own distance query is not monotone in its cutoff (GJK early-out): if the reference says "nothing within cutoff"
+    # but the same query with a large cutoff finds a smaller distance, the reference is not usable
+    c = float(mjm.sensor_cutoff[i])
+    none_ref = (t == int(S.mjSENS_GEOMDIST) and r[0] == c) or (t != int(S.mjSENS_GEOMDIST) and not np.any(r != 0))
+    if none_ref and c > 0:
+      ft = np.zeros(6)
+      dbig = mujoco.mj_geomDistance(mjm, mjd, int(mjm.sensor_objid[i]), int(mjm.sensor_refid[i]), 1.0e3, ft)
+      if dbig < c * (1 - 1e-6):
+        rec.count("geomdist_reference_cutoff_dependent")
+        rec.inconcl(f"{name}: mj_geomDistance finds {dbig:.4g} with a large cutoff but nothing with the sensor cutoff {c:.4g}")
+        return "incon"
   rec.count("judged:" + name)
   sig = "sensor:" + name
   # "no distance found" output of the geom-distance family: cutoff / zero vector
